@@ -72,6 +72,14 @@ func c18Resolve(c *c18Case, base string) (*stack.Snapshot, []fileTruth, []*stack
 	if len(order) == 0 {
 		return nil, nil, nil, nil
 	}
+	used := []string{"/tmp/go-build55/b001/gen.go", "/tmp/go-build77/b001/_testmain.go"}
+	for _, k := range order {
+		used = append(used, refs[k])
+	}
+	if hostInterferes(used, base) {
+		statsFor("C18").class("skipped_remote_path_exists_on_this_machine", 1)
+		return nil, nil, nil, nil
+	}
 	d := dumpFor(refs, order)
 	opts := &stack.Opts{GuessPaths: true, LocalGOROOT: c.L.localGoroot(base), LocalGOPATHs: c.L.localGopaths(base)}
 	if gps := c.L.localGopaths(base); len(c.EnvSlash) != 0 && len(gps) != 0 {
